@@ -13,6 +13,30 @@ props = [json.loads(l) for l in open(os.path.join(VERIF, "properties.jsonl"))]
 
 NOT_YET = "check not built yet; planned structural rules are in DESIGN.md section 5"
 
+BASE = "static analysis over facts from a custom rustc_private driver (MIR with resolved callees, expanded #[account] attributes, layouts, evaluated constants): "
+TECHNIQUE = {
+    "C01": "who-may-call / reachability of the pool-signed transfer helpers from the 66 dispatch entries, read-reset-pay ordering by dominance, rounding-polarity tables by context-specialised constant propagation, floor-form call checks",
+    "C02": "context-specialised boolean constant propagation (4 swap contexts) over inlined wrappers to the rounding flag of each curve primitive; increment-site reachability per flag; value-provenance matching of the remainder test against the incremented quotient; per-arm provenance of enum matches",
+    "C03": "guard-atom extraction with error codes per context, dominance of the slippage / limit failures over every state-changing call, value provenance of thresholds, limits and loop accumulators",
+    "C04": "Anchor constraint parsing (expanded AST) + linkage graph from mutated account to the signer's address source; who-may-write sets for authority and rate fields; dominance of the position-authority helper over the first effect; Pinocchio slot labelling vs Anchor struct; layout equality with SPL Pod types",
+    "C05": "who-may-write sets for liquidity fields; argument-name consistency and value provenance at the four uses of one liquidity delta; guard atoms of the range test; per-arm return values",
+    "C06": "value provenance of the fee split (floor forms, subtraction before growth), side tables of the settlement by context-specialised provenance, read-before-reset ordering, event field provenance",
+    "C07": "taint-style discipline rule (growth accumulators only through wrapping ops), case-table decision of growth-inside by assuming guard atoms, index/side consistency of provenance terms, dominance order inside the swap loop",
+    "C08": "guard atoms + per-case call arguments of the token-delta case split in both implementations, sign provenance of the liquidity delta through the handlers, threshold checks dominating transfers",
+    "C09": "shape extraction of both tick ladders from MIR (masks, literals, step primitive, shifts), big-decimal audit of the literals, constant propagation of the extracted ladder at the published bounds, derivation checks of the inverse's constants, per-assumption return values of the final choice",
+    "C10": "must-pass checks of the tick-array loaders (owner, length, discriminator, pool key), sibling comparison of the three search implementations, guard atoms and hand-over terms of the sequence search, loop-cursor provenance",
+    "C11": "guard atoms and value provenance of reward accrual, collection (min(owed, vault), remainder stored), emission change (settle first, vault covers a day), case table of reward growth inside per index, wrap discipline",
+    "C12": "layout equality (offsets/sizes from layout_of vs Borsh order) between memory-mapped views and Anchor account types, discriminator equality, accessor/setter field provenance, dispatch-table bijection, sibling comparison of 16 ported function pairs",
+    "C13": "evaluated-constant relations of the dynamic encoding, pairing of rotate direction / bitmap update / written length under the same guard in both implementations, byte-offset formula provenance, resize/rent case table, account wiring by argument names",
+    "C14": "clamp dominance on every non-constant return, case table of the reference update by assumed guard atoms, gate atoms dominating the swap engine in four handlers, ordering by dominance (reference update before range sizing; refresh before every step), formula and constant provenance",
+    "C15": "Anchor constraint parsing per token account / mint / program field with role classification, seeds and has_one linkage, loader must-pass checks, Pinocchio verify_* calls matched one-to-one against the Anchor struct and dominating the first effect",
+    "C16": "context-specialised value provenance of the transfer-fee wrapping around the curve swap (which mint, which amount, which side of the equality), helper formulas, Pinocchio TLV reader layouts and epoch selection",
+    "C17": "per-context (8) call-site provenance of both legs (pool, tick sequence, limit, direction, oracle state), coupling of the intermediate amount, equality guard dominating all effects, settlement argument positions",
+    "C18": "who-may-write of the range fields dominated by the range validator, guard atoms of close / lock / transfer-locked paths, bitmap update provenance, validator rejection set in both implementations",
+    "C19": "dominance of `value > BOUND` (evaluated constants) over every store of a bounded field, who-may-write / whole-value overwrite sets, validator case table, supported-mint decision per extension variant with resolved callee paths",
+    "C20": "the same extractor on the SDK (compiled in place with a signature-only ethnum stand-in): constant and ladder equality with the program, sibling comparison of 15 literal ports, context-specialised polarity / dispatch / bookkeeping tables of the independent swap implementation, quote wiring",
+}
+
 checks = []
 na = []
 for p in props:
@@ -36,7 +60,7 @@ for p in props:
         "evidence_file": "/verif/evidence/%s.json" % pid,
         "replay_cmd_template": "./check %s --replay {path}" % pid,
         "engine": "wpfacts+rules",
-        "technique": getattr(mod, "TECHNIQUE", "static analysis: custom rustc_private MIR/AST fact extractor + repository-specific dataflow / dominance / who-may-write / layout rules"),
+        "technique": BASE + getattr(mod, "TECHNIQUE", TECHNIQUE[pid]),
         "level_claimed": {
             "category": "other",
             "text": claim,
